@@ -43,7 +43,8 @@ BASE = dict(ntasks=(1, 6), nseg=(1, 3), nleaf=(0, 3), nkinds=(1, 2), depth=1,
             p_share=0.0, p_reyield=0.0, flush_modes=("ok",), bases=(0,),
             p_raise=0.0, p_errleaf=0.0, p_lazyfail=0.0, p_bad=0.0, p_catch=0.0,
             p_sync=0.0, p_spawn=0.0, ctx_types=(), p_ctx=0.0, nvars=0, p_read=0.0, faulty=(),
-            ncalls=1, convs=("call", "value"), p_result=0.3, containers=("Tup", "Lst", "Dct"))
+            ncalls=1, convs=("call", "value"), p_result=0.3, containers=("Tup", "Lst", "Dct"),
+            p_dedup=0.0, p_dirty=0.0, ndfn=(1, 2), nkeys=2)
 
 PROFILES = {
     "plain": dict(BASE),
@@ -75,6 +76,10 @@ PROFILES = {
     "overflow": dict(BASE, ntasks=(3, 8), nleaf=(1, 3), p_task=0.6, p_item=0.25, p_sync=0.15, maxstack=(2, 5), ncalls=2,
                      p_catch=0.3),
     "throw": dict(BASE, nkinds=(1, 3), bases=(0, 1), flush_modes=("ok", "throw", "raise"), p_sync=0.2, p_catch=0.4, ncalls=2),
+    "dedup": dict(BASE, ntasks=(3, 9), p_dedup=0.45, p_task=0.25, p_item=0.2, p_dirty=0.25, flush_modes=("ok", "ok", "itemerr")),
+    "dedupdirty": dict(BASE, ntasks=(4, 9), nseg=(2, 4), p_dedup=0.6, p_task=0.2, p_item=0.15, p_dirty=0.45, ndfn=(1, 1), nkeys=1,
+                       nkinds=(2, 2)),
+    "dedupsync": dict(BASE, ntasks=(3, 9), p_dedup=0.4, p_task=0.25, p_item=0.2, p_dirty=0.25, p_sync=0.2),
     "everything": dict(BASE, ntasks=(2, 8), nkinds=(1, 3), bases=(0, 1), p_share=0.1, p_reyield=0.05,
                        flush_modes=("ok", "ok", "itemerr", "skip", "raise"), p_raise=0.08, p_errleaf=0.04, p_bad=0.03,
                        p_catch=0.35, p_sync=0.15, ctx_types=("async", "override"), p_ctx=0.35, nvars=1, p_read=0.3),
@@ -94,6 +99,9 @@ class Gen(object):
         self.nk = rng.randint(*prof["nkinds"])
         self.created = []        # task ids allocated so far (for sharing)
         self.sync_targets = set()
+        self.dedup_inst = []     # instance ids of deduplicated calls
+        self.dfn_bodies = {}
+        self.predefined = {}
 
     def alloc(self):
         if self.next > self.N:
@@ -106,7 +114,7 @@ class Gen(object):
     def leaf(self, t, yielded_before):
         r, p = self.r, self.p
         opts = (("I", p["p_item"]), ("T", p["p_task"]), ("C", p["p_const"]), ("N", p["p_none"]),
-                ("L", p["p_lazy"]), ("E", p["p_errleaf"]), ("LF", p["p_lazyfail"]), ("Bad", p["p_bad"]))
+                ("L", p["p_lazy"]), ("E", p["p_errleaf"]), ("LF", p["p_lazyfail"]), ("Bad", p["p_bad"]), ("D", p["p_dedup"]))
         x = r.random() * sum(w for _, w in opts)
         acc = 0.0
         tag = "I"
@@ -129,7 +137,29 @@ class Gen(object):
             return S("T", u)
         if tag == "C":
             return S("C", r.randint(1, 3))
+        if tag == "D":
+            u = self.alloc()
+            if u is None:
+                return S("I", r.randint(1, self.nk))
+            self.sync_targets.add(u)     # never shared as a plain T leaf
+            self.predefined[u] = self.dedup_instance()
+            self.dedup_inst.append(u)
+            return S("D", u)
         return S(tag)
+
+    def dedup_instance(self):
+        r, p = self.r, self.p
+        g = r.randint(1, r.randint(*p["ndfn"]))
+        if g not in self.dfn_bodies:
+            segs = []
+            for k in range(r.randint(0, 2)):
+                n = r.randint(1, 2)
+                leaves = [S("I", r.randint(1, self.nk)) if r.random() < 0.8 else S("C", 1) for _ in range(n)]
+                segs.append(seg([], term("yield", leaves[0] if n == 1 else S("Lst", 0, leaves))))
+            segs.append(seg([], term("raise" if r.random() < 0.15 else "return")))
+            self.dfn_bodies[g] = segs
+        return {"segs": json.loads(json.dumps(self.dfn_bodies[g])),
+                "dedup": {"fn": g, "key": r.randint(1, p["nkeys"]), "spell": r.randint(0, 3)}}
 
     def struct(self, t, yielded_before, depth):
         r, p = self.r, self.p
@@ -154,7 +184,7 @@ class Gen(object):
         yielded = []
         for k in range(1, nseg + 1):
             ops = []
-            nops = r.randint(0, 3) if (p["p_ctx"] or p["p_sync"] or p["p_read"] or p["p_spawn"]) else 0
+            nops = r.randint(0, 3) if (p["p_ctx"] or p["p_sync"] or p["p_read"] or p["p_spawn"] or p["p_dirty"]) else 0
             for _ in range(nops):
                 x = r.random()
                 if p["ctx_types"] and x < p["p_ctx"]:
@@ -176,6 +206,8 @@ class Gen(object):
                 elif p["nvars"] and x < p["p_ctx"] + p["p_sync"] + p["p_read"]:
                     v = r.randint(1, p["nvars"])
                     ops.append(op("read", v if r.random() < 0.5 or "attr" not in p["ctx_types"] else 100 + v))
+                elif p["p_dirty"] and self.dedup_inst and r.random() < p["p_dirty"]:
+                    ops.append(op("dirty", r.choice(self.dedup_inst)))
                 elif p["p_spawn"] and r.random() < p["p_spawn"]:
                     u = self.alloc()
                     if u is not None:
@@ -207,7 +239,7 @@ class Gen(object):
         calls = []
         while True:
             while t < self.next:
-                self.tasks[t] = self.task(t)
+                self.tasks[t] = self.predefined[t] if t in self.predefined else self.task(t)
                 t += 1
             if len(roots) < p["ncalls"] and self.next <= self.N:
                 u = self.alloc()
@@ -355,3 +387,43 @@ def chain(depth, variant="plain"):
             s = child if variant != "list" else S("Lst", 0, [child, S("N")])
             tasks.append({"segs": [seg([], term("yield", s)), seg([], term("return"))]})
     return program(tasks)
+
+
+def enum_dedup(max_len=3, bodies=(1, 2), nactors=2):
+    """Complete family for C12: the root yields [D(first call), actor_1, ..., actor_n]; every actor is a sequence of
+    <= max_len steps over {W: wait one flush round, C: call the deduplicated function, X: dirty() then call};
+    the deduplicated body waits for 1 or 2 flush rounds.  One function, one key, one batch kind."""
+    steps = []
+    for n in range(1, max_len + 1):
+        steps += list(itertools.product("WCX", repeat=n))
+    progs = []
+    for nb in bodies:
+        body = [seg([], term("yield", S("I", 1))) for _ in range(nb)] + [seg([], term("return"))]
+        for combo in itertools.product(steps, repeat=nactors):
+            tasks = [None]                      # index 0 = task 1 (root), filled below
+            insts = []
+
+            def new_inst():
+                tasks.append({"segs": json.loads(json.dumps(body)), "dedup": {"fn": 1, "key": 1, "spell": len(insts) % 4}})
+                insts.append(len(tasks))
+                return len(tasks)
+
+            first = new_inst()
+            leaves = [S("D", first)]
+            for seq in combo:
+                tasks.append(None)
+                aid = len(tasks)
+                leaves.append(S("T", aid))
+                segs = []
+                for st in seq:
+                    if st == "W":
+                        segs.append(seg([], term("yield", S("I", 1))))
+                    else:
+                        u = new_inst()
+                        ops = [op("dirty", first)] if st == "X" else []
+                        segs.append(seg(ops, term("yield", S("D", u))))
+                segs.append(seg([], term("return")))
+                tasks[aid - 1] = {"segs": segs}
+            tasks[0] = {"segs": [seg([], term("yield", S("Lst", 0, leaves))), seg([], term("return"))]}
+            progs.append(program(tasks))
+    return progs
